@@ -5,6 +5,7 @@ import sys
 
 from pedal.core.commands import contextualize_report
 from pedal.core.report import MAIN_REPORT
+from pedal.core.submission import Submission
 from pedal.source import verify
 from pedal.source.sections import separate_into_sections, next_section, stop_sections, DEFAULT_SECTION_PATTERN
 from pedal.tifa import tifa_analysis
@@ -24,7 +25,7 @@ def main():
     data = json.load(sys.stdin)
     out = []
     for case in data['cases']:
-        contextualize_report(case['file'])
+        contextualize_report(Submission(main_file=case.get('name', 'answer.py'), main_code=case['file']))
         rep = MAIN_REPORT
         steps = []
         err = None
